@@ -379,6 +379,15 @@ class Program:
         self.impl_info[defname] = res
         return res
 
+    def is_derived(self, defname):
+        """the impl this def lives in comes from a #[derive(..)] (its span points into the attribute, not at an `impl` item)"""
+        m = re.search(r"<impl at ([^:>]+):(\d+):(\d+): (\d+):(\d+)>", defname)
+        if not m:
+            return False
+        self.impl_of(defname)
+        hdr = self._impl_cache.get((m.group(1), int(m.group(2))), "")
+        return not hdr.strip().startswith("impl")
+
     def resolve(self, callee):
         """call-site path -> def name or None (memoised: a pure function of the call-site text)"""
         cache = self.__dict__.setdefault("_resolve_cache", {})
@@ -878,6 +887,9 @@ class Engine:
                 if rx.search(c) or rx.search(d):
                     self.stats["opaque_calls"].add(c)
                     return VOpaque(c, args)
+            r_ = self._derived_cmp_on_lazies(c, d, args)
+            if r_ is not None:
+                return r_
             return self.run_fn(self.P.fns[d], args)
         import intrinsics
         r = intrinsics.dispatch(self, c, args)
@@ -889,6 +901,31 @@ class Engine:
                 self.stats["opaque_calls"].add(c)
                 return VOpaque(c, args)
         raise Unsupported("no model for callee: %s" % c)
+
+    def _derived_cmp_on_lazies(self, c, d, args):
+        """#[derive(PartialEq / Ord / PartialOrd)] applied to two lazily initialised (not yet unfolded) objects: structural
+        equality of arbitrary values is equality of their identities, and the derived order is some strict total order on
+        identities (uninterpreted) — instead of unfolding both objects field by field"""
+        m = re.search(r" as (?:[\w:]*::)?(PartialEq|Ord|PartialOrd)(?:<[^>]*>)?>::(eq|ne|cmp|partial_cmp)$", c)
+        if not m or len(args) != 2 or not self.P.is_derived(d):
+            return None
+        a, b = args
+        while isinstance(a, VRef):
+            a = self.read_ref(a)
+        while isinstance(b, VRef):
+            b = self.read_ref(b)
+        if not (isinstance(a, (VLazy, VOpaque)) and isinstance(b, (VLazy, VOpaque))):
+            return None
+        ua, ub = self.as_u(a), self.as_u(b)
+        if m.group(2) in ("eq", "ne"):
+            return VBool(ua == ub if m.group(2) == "eq" else ua != ub)
+        lt = z3.Function("derived_ord", self.U, self.U, z3.BoolSort())
+        self.pc.append(z3.Not(z3.And(lt(ua, ub), lt(ub, ua))))
+        i = self.choose([ua == ub, z3.And(ua != ub, lt(ua, ub)), z3.And(ua != ub, z3.Not(lt(ua, ub)))], "derived order")
+        if i == 2:
+            self.pc.append(lt(ub, ua))
+        o = VEnum("Ordering", ["Equal", "Less", "Greater"][i], [])
+        return o if m.group(2) == "cmp" else VEnum("Option", "Some", [o])
 
     def uf_call(self, name, args):
         """uninterpreted pure function of the arguments; typed by the callee's MIR signature when it is a crate fn"""
